@@ -400,7 +400,8 @@ class SimpleCorrelator(AbstractCorrelator):
                 deliver_sm.short_message = text
             else:
                 deliver_sm.message_payload = text
-            del self._delivery_segment_store[str(ref_num)]
+            # The entry does not exist yet if the very first segment completes the message
+            self._delivery_segment_store.pop(str(ref_num), None)
             await self._remove_expired()
             return deliver_sm
         self._delivery_segment_store[str(ref_num)] = segment_data
